@@ -525,6 +525,15 @@ pub fn c17(tier: Tier) -> i32 {
                 v.push(("extension-accepted".into(), format!("ciphertext extended by {cut} decrypts")));
             }
         }
+        // every short prefix (down to nothing: shorter than the authentication tag) fails cleanly
+        for len in 0..=33usize.min(ct.len() - 1) {
+            n += 1;
+            match std::panic::catch_unwind(|| cryptography::decrypt(&ct[..len], k).is_ok()) {
+                Ok(false) => {}
+                Ok(true) => v.push(("truncation-accepted".into(), format!("the first {len} bytes of the ciphertext decrypt"))),
+                Err(_) => v.push(("decrypt-panics-on-a-short-blob".into(), format!("decrypting a blob of {len} bytes panics instead of failing"))),
+            }
+        }
         let loc = Locator::new(*k);
         n += 1;
         if loc.to_vec() != k.to_byte_array()[..16].to_vec() {
